@@ -111,13 +111,14 @@ let register () =
       | _ -> "bad-args");
   (* end-to-end: ServerManager.serveHls histories (requests / add_ip_blacklist / clock) *)
   Registry.register "c14.servehls" (function
-      | [flags; key; ovr; scen; md5t; pqt; low] ->
+      | [flags; key; ovr; sub; scen; md5t; pqt; low; pqallt] ->
         let f = int_of_string flags in
         let cfg = { AuthSimple.sa_key = bytes_of_token key; sa_override = bytes_of_token ovr;
                     sa_pub_rtmp = bit f 0; sa_sub_rtmp = bit f 1; sa_sub_flv = bit f 2; sa_sub_ts = bit f 3;
                     sa_pub_rtsp = bit f 4; sa_sub_rtsp = bit f 5; sa_hls_m3u8 = bit f 6 } in
-        let pqtab = table "pq" pqt in
+        let pqtab = table "pq" pqt and pqalltab = table "pqall" pqallt in
         let pqf = fun q -> parse_pq (lookup "pq" pqtab q) in
+        let pqall = fun q -> (match parse_pq (lookup "pqall" pqalltab q) with Some l -> l | None -> failwith "pqall-E") in
         String.concat "|" (Stdlib.List.map (fun sc ->
             let ops = Stdlib.List.map (fun o ->
                 match String.split_on_char ':' o with
@@ -125,11 +126,14 @@ let register () =
                 | ["B"; ip; d] -> AuthServeHls.ShBlacklist (bytes_of_token ip, z_of_token d)
                 | ["S"; s] -> AuthServeHls.ShSleep (z_of_token s)
                 | _ -> failwith "bad servehls op") (String.split_on_char ',' sc) in
-            let rs = AuthServeHls.sh_run (fn_total "md5" md5t) pqf (fn_total "lower" low) cfg (sb_root ()) [] (z_of_int 1000) ops in
+            let rs = AuthServeHls.sh_run (fn_total "md5" md5t) pqf (fn_total "lower" low) pqall cfg (bool_of_token sub) (sb_root ())
+                AuthServeHls.hls_state0 (z_of_int 1000) ops in
             if rs = [] then "-" else String.concat "," (Stdlib.List.map (function
                 | AuthServeHls.HrFile p -> if Stdlib.List.mem (string_of_bytes p) sb_files then "200:" ^ hex_of_bytes p else "404"
                 | AuthServeHls.HrInvalid -> "302"
                 | AuthServeHls.HrBlocked -> "404"
+                | AuthServeHls.HrNoSession -> "404"
+                | AuthServeHls.HrRedirect sid -> "302r:" ^ hex_of_bytes sid
                 | AuthServeHls.HrAuthFail -> "200-empty") rs)) (String.split_on_char '|' scen))
       | _ -> "bad-args");
   Registry.register "c14.secret" (function
